@@ -19,7 +19,11 @@ MANIFEST = {
             "lists; 825 strings) plus operator-like literals: every string-keyword alias (11) x 12 words spelled like operator "
             "words in upper/mixed case (NE Ne OR AND NOT TO EQ LT LE GT GE Or; NE/Ne are real atom, residue and element names "
             "of the fixture) alone, with == != eq ne, reversed, bare and quoted, and as first / middle / last element of "
-            "implicit lists (2244 strings), and quoted literals that contain the other quote character (primed atom names "
+            "implicit lists (2244 strings); the same forms for 11 lower-case bare words that merely START with an operator "
+            "spelling (leu gtp ne2 eq1 let gea orn and1 nota tox lta - residue and atom names of the fixture) on name / resname "
+            "/ segment_id aliases, bare and quoted in one variant group (935 strings); implicit lists of 4..6 integers WITH "
+            "REPEATS - every multiset of that size over four values for resid, resSeq, index and the float-valued mass, incl. "
+            "279 lists whose count equals max-min+1 (`resid 2 2 2 6 6`) - plus genuinely consecutive lists (891 strings); and quoted literals that contain the other quote character (primed atom names "
             "\"O5'\", \"H5''\", 'H5\"', with unprimed decoys O5 C3 H5 in the fixture) alone, with == != eq ne in both orders, in "
             "implicit lists, as =~ patterns (252 strings); and 21 regular expressions that match only a proper prefix of some "
             "fixture value (name =~ 'C', 'C[1-4]' with C1..C4 and C10..C12 present, resname =~ 'H' with HOH/HIS, 'A.', ...) in "
@@ -27,7 +31,8 @@ MANIFEST = {
             "judged only by select(e) == eval(select_expression(e)) with the real re module and by the emitted source being "
             "the same text on a second call, not by the reference. Depth 2: every tree leaf | not leaf | leaf conn leaf over 21 representative leaves "
             "x {and,&&,or,||} x {not,!}, rendered flat / minimally / fully parenthesised / every leaf parenthesised (1827 trees, "
-            "~3.6k strings); the operator-like literals (1296 trees) and the quote-containing literals (520 trees) under every connective. Depth 3, quick: the three-leaf "
+            "~3.6k strings); the operator-like literals (1296 trees), operator-prefixed words (648 trees), integer lists with repeats (130 trees) "
+            "and the quote-containing literals (520 trees) under every connective. Depth 3, quick: the three-leaf "
             "slice over 3 leaves in all 16 connective spellings (864 trees); thorough: every tree of depth <= 3 over 4 leaves "
             "plus the slice over 5 leaves (25k trees, ~58k strings). Plus parenthesis nesting 1..5, 25 whitespace variants, ~100 "
             "malformed strings. History layer: every edit sequence of length 1..2 (156, all ordered pairs) over 12 edits "
@@ -36,7 +41,7 @@ MANIFEST = {
             "the traversal order is not the index order: add_atom to the first / a middle residue, insert_atom(index=2) into "
             "a water} applied to ONE Topology object x 28 expressions touching every keyword, evaluated before the edits "
             "(fills caches), after every edit, and at the end also through eval(select_expression) and on a from-scratch, "
-            "index-preserving copy of the edited topology (~12.6k cases). Topology: 70 atoms, protein chains/segments, nucleotide- and lipid-like residues, "
+            "index-preserving copy of the edited topology (~12.6k cases). Topology: 79 atoms, protein chains/segments, nucleotide- and lipid-like residues, "
             "water, ions, repeated names and residue numbers. Oracles: select(e) == reference and strictly increasing; all "
             "spelling/parenthesisation variants of one abstract expression agree; eval(select_expression(e)) == select(e); "
             "malformed strings raise; edited object == reference on the re-walked atom table (index = atom.index) == "
@@ -433,7 +438,7 @@ def _space(ctx, R, G):
     d1 = G.depth1()
     for s, key, klass in d1:
         # the operator-like / quote-inside literal families share the parse between select and select_expression
-        add(s, "program-shared" if klass.startswith(("oplike", "primed")) else "program", ("d1", key))
+        add(s, "program-shared" if klass.startswith(("oplike", "opprefix", "intlist", "primed")) else "program", ("d1", key))
     stats["depth1_strings"] = len(items)
     stats["depth1_abstract_conditions"] = len({k for _s, k, _c in d1})
     klasses = {}
@@ -490,6 +495,18 @@ def _space(ctx, R, G):
     stats["operator_like_literal_trees"] = len(to)
     stats["operator_like_literal_depth2_strings"] = len(items) - n0
     stats["operator_like_words"] = list(G.OPLIKE_WORDS)
+
+    for tag, trees_, modes in (("operator_prefixed_literal", G.opprefix_trees(ctx.seed), ("min",)),
+                               ("integer_list", G.intlist_trees(ctx.seed), ("min", "leafparen"))):
+        pg = G.programs(trees_, modes)
+        selfcheck(trees_, pg, tag)
+        n0 = len(items)
+        for s, k, _pres in pg:
+            add(s, "program-shared", (tag, k) if k is not None else None)
+        stats[tag + "_trees"] = len(trees_)
+        stats[tag + "_depth2_strings"] = len(items) - n0
+    stats["operator_prefixed_words"] = list(G.OPPREFIX_WORDS)
+    stats["integer_list_value_sets"] = {k: list(v) for k, v in G.INTLIST_VALUES.items()}
 
     tp = G.primed_trees(ctx.seed)
     pp = G.programs(tp, ("min", "leafparen"))
